@@ -406,8 +406,20 @@ def fam_general(cs, rng):
         else:
             k = rng.randint(1, 3)
             W = rand_weights(rng, n, k)
-        kind = rng.choice(["poly", "poly", "indicator"])
-        if kind == "poly":
+        kind = rng.choice(["poly", "poly", "indicator", "const-tail"])
+        if kind == "const-tail":
+            # f(0) is zero in its FIRST component only: the later outputs are constants (so every branch, also one above a
+            # node without samples below it, contributes constant x length x span), the first is linear
+            d = rng.randint(2, 3)
+            consts = [rng.choice([1.0, 0.5, -2.0, 3.0]) for _ in range(d - 1)]
+            a = rng.choice([1.0, -1.0, 0.5])
+            mode = rng.choice(["branch", "branch", "branch", "site", "node"])
+            polarised = rng.random() < 0.7
+
+            def f(x, consts=consts, a=a):
+                return np.array([a * x[0]] + consts)
+            ctx.feature(f"general:f(0)-zero-in-first-output-only:{mode}")
+        elif kind == "poly":
             f = poly_f(rng, k, d)
         else:
             thr = [rng.randint(0, 2) for _ in range(k)]
@@ -416,7 +428,7 @@ def fam_general(cs, rng):
             def f(x, thr=thr):
                 return np.array([float(all(xi >= t for xi, t in zip(x, thr))), float(sum(x) == sum(thr))])
         total = W.sum(axis=0)
-        strict = rng.random() < 0.5
+        strict = rng.random() < (0.15 if kind == "const-tail" else 0.5)
         zero_ok = bool(np.allclose(f(total * 0.0), 0) and np.allclose(f(total), 0))
         if strict and not zero_ok and rng.random() < 0.85:
             g = strictify(f, total) if kind == "poly" else None
